@@ -230,7 +230,7 @@ func supervise(r *mon.Run, mode string, shard int, to time.Duration) {
 			return
 		}
 		logHT := mon.HeadTail(res.LogFile, 3500)
-		site := deathSite(res.LogFile)
+		site := deathSite(res.LogFile, c)
 		typ := ""
 		if c != nil {
 			typ = c.Type
@@ -254,39 +254,18 @@ func supervise(r *mon.Run, mode string, shard int, to time.Duration) {
 	}
 }
 
-// deathSite classifies a dead child: kind of death (mon.FatalSite) + the
-// go-rangers entry point the main goroutine was in (outermost repository frame
-// of goroutine 1 -- stable, whereas the innermost frame of a runaway loop is
-// wherever the memory guard happened to catch it).
-func deathSite(logFile string) string {
+// deathSite classifies a dead child: kind of death (mon.FatalSite: oom, panic,
+// stack-overflow, ...) + the oracle phase that was in flight. The stack of the
+// main goroutine is not used: when the memory guard fires it is usually
+// "running on other thread; stack unavailable", and the innermost frame of a
+// runaway loop is arbitrary anyway. The log excerpt is part of the witness.
+func deathSite(logFile string, c *Case) string {
 	b, _ := ioutil.ReadFile(logFile)
-	log := string(b)
-	kind := mon.FatalSite(log)
+	kind := mon.FatalSite(string(b))
 	if i := strings.Index(kind, "@"); i >= 0 {
 		kind = kind[:i]
 	}
-	i := strings.Index(log, "\ngoroutine 1 ")
-	if i < 0 {
-		return kind
-	}
-	block := log[i+1:]
-	if j := strings.Index(block, "\n\n"); j >= 0 {
-		block = block[:j]
-	}
-	entry := ""
-	const pfx = "com.tuntun.rangers/node/src/"
-	for _, l := range strings.Split(block, "\n") {
-		if strings.HasPrefix(l, pfx) {
-			if k := strings.LastIndex(l, "("); k > 0 {
-				l = l[:k]
-			}
-			entry = strings.TrimPrefix(l, pfx)
-		}
-	}
-	if entry == "" {
-		return kind
-	}
-	return kind + "@" + entry
+	return kind + ":in-flight=" + modeOf(c)
 }
 
 var (
@@ -724,7 +703,7 @@ func replay(r *mon.Run, path string) {
 			r.Merge(res.Partial)
 		}
 		logHT := mon.HeadTail(res.LogFile, 3500)
-		site := deathSite(res.LogFile)
+		site := deathSite(res.LogFile, &c)
 		r.Violation("C08:fatal:type="+c.Type+":"+site, fmt.Sprintf("child process died with exit %d (%s) while executing mode=%s type=%s input=%x", res.Exit, site, c.Mode, c.Type, clip(c.Input)),
 			map[string]interface{}{"case": c, "log": logHT})
 	} else {
